@@ -88,3 +88,90 @@ func inPlaceDisciplineRule(P *Program, R *Report, rule string, types ...string) 
 		R.ok(rule, "in-place:none("+strings.Join(types, ",")+")", fmt.Sprintf("no untabled in-place mutation among %d operand uses", nUses))
 	}
 }
+
+// sharedConstantsRule: package-level *big.Int variables (bigONE, bigZERO, two, ...) are process-wide constants.
+// They are never the receiver of a mutating method outside package initialisation, never returned to a
+// caller and never stored into a structure (an escaped constant is modified in place by the next
+// `x.Lsh(x, k)` of its new owner and with it every later computation in the process).
+func sharedConstantsRule(P *Program, R *Report, rule string) {
+	isGlobalBig := func(v ssa.Value) (string, bool) {
+		seen := map[ssa.Value]bool{}
+		var walk func(x ssa.Value) (string, bool)
+		walk = func(x ssa.Value) (string, bool) {
+			if seen[x] {
+				return "", false
+			}
+			seen[x] = true
+			switch y := x.(type) {
+			case *ssa.UnOp:
+				if g, ok := y.X.(*ssa.Global); ok && isBigIntPtr(y.Type()) && inModule(g.Pkg.Pkg) {
+					return g.Pkg.Pkg.Name() + "." + g.Name(), true
+				}
+			case *ssa.Phi:
+				for _, e := range y.Edges {
+					if s, ok := walk(e); ok {
+						return s, true
+					}
+				}
+			case *ssa.ChangeType:
+				return walk(y.X)
+			case *ssa.Call:
+				if m := bigMethod(y); m != "" && bigMutators[m] && len(y.Call.Args) > 0 {
+					return walk(y.Call.Args[0])
+				}
+			}
+			return "", false
+		}
+		return walk(v)
+	}
+	nUses := 0
+	bad := map[string]string{}
+	for _, fn := range P.AllFuncs {
+		if fn.Blocks == nil || fn.Name() == "init" || strings.HasPrefix(fn.Name(), "init#") {
+			continue
+		}
+		allInstrs(fn, func(i ssa.Instruction) {
+			switch x := i.(type) {
+			case *ssa.Call:
+				m := bigMethod(x)
+				for k, a := range x.Call.Args {
+					if g, ok := isGlobalBig(a); ok {
+						nUses++
+						if m != "" && k == 0 && bigMutators[m] {
+							bad[FuncKey(fn)+":in-place("+g+")"] = fmt.Sprintf("%s: %s.%s(...) overwrites a process-wide constant", P.Pos(x.Pos()), g, m)
+						}
+					}
+				}
+			case *ssa.Return:
+				for _, v := range x.Results {
+					if !isBigIntPtr(v.Type()) {
+						continue
+					}
+					if g, ok := isGlobalBig(v); ok {
+						bad[FuncKey(fn)+":returns("+g+")"] = fmt.Sprintf("%s: the shared constant %s is handed to the caller, who owns and may modify what a function returns", P.Pos(x.Pos()), g)
+					}
+				}
+			case *ssa.Store:
+				if !isBigIntPtr(x.Val.Type()) {
+					return
+				}
+				if _, toGlobal := x.Addr.(*ssa.Global); toGlobal {
+					return
+				}
+				if g, ok := isGlobalBig(x.Val); ok {
+					if _, local := rootOfAddr(x.Addr).(*ssa.Alloc); local {
+						return // a local variable or the function's own copy of a by-value parameter
+					}
+					bad[FuncKey(fn)+":stores("+g+")"] = fmt.Sprintf("%s: the shared constant %s is stored into %s", P.Pos(x.Pos()), g, desc(x.Addr))
+				}
+			}
+		})
+	}
+	R.decide(rule, "shared-constants:uses", "uses of package-level big.Int constants were found (>= 10)", nUses >= 10, fmt.Sprintf("%d", nUses), "")
+	for _, k := range sortedKeys(boolSet(bad)) {
+		R.bad(rule, k, "package-level big.Int constants are only read", bad[k], "")
+	}
+	if len(bad) == 0 {
+		R.ok(rule, "shared-constants:read-only", fmt.Sprintf("none of %d uses mutates, returns or stores a package-level constant", nUses))
+	}
+}
